@@ -8,6 +8,7 @@ import (
 	"net/http"
 	"strings"
 	"time"
+	"unicode/utf8"
 
 	"github.com/gobwas/ws"
 	"google.golang.org/grpc"
@@ -451,10 +452,18 @@ func (m *Mux) serveHTTP(w http.ResponseWriter, r *http.Request) error {
 
 		if herr != nil {
 			s, _ := status.FromError(herr)
-			// TODO: limit message size.
+			// A close frame carries the code and at most 123 bytes of
+			// UTF-8 text: cut a longer message between two characters.
+			msg := s.Message()
+			if n := ws.MaxControlFramePayloadSize - 2; len(msg) > n {
+				for n > 0 && !utf8.RuneStart(msg[n]) {
+					n--
+				}
+				msg = msg[:n]
+			}
 
 			code := WSStatusCode(s.Code())
-			f := ws.NewCloseFrame(ws.NewCloseFrameBody(code, s.Message()))
+			f := ws.NewCloseFrame(ws.NewCloseFrameBody(code, msg))
 			b, err := ws.CompileFrame(f)
 			if err != nil {
 				return err
